@@ -55,6 +55,24 @@ Proof.
   destruct (t_put lang_match (ctx_of c) t it cond names vals) as [t' r]. destruct r; cbn; auto. discriminate.
 Qed.
 
+(* what a successful PutItem answers: the replaced item when ReturnValues = ALL_OLD asks for it, nothing otherwise *)
+Lemma put_item_payload c tn it cond names vals ro :
+  o_res (snd (put_item lang_match flavour c tn it cond names vals ro)) = ROk ->
+  exists t old,
+    lookup tn (c_tables c) = Some t /\
+    (exists t' f, t_put lang_match (ctx_of c) t it cond names vals = (t', WOk old f)) /\
+    o_pay (snd (put_item lang_match flavour c tn it cond names vals ro)) =
+    match old with Some i => if ro then PItem (out_item flavour i) else PNone | None => PNone end.
+Proof.
+  unfold put_item, preamble. destruct (c_failure c); [cbn; discriminate|].
+  destruct (negb (v1_name_ok flavour tn)); [cbn; discriminate|].
+  destruct (validate_expr_attrs _ _ _); [|cbn; discriminate].
+  destruct (lookup tn (c_tables c)) as [t|]; [|cbn; discriminate].
+  destruct (t_put lang_match (ctx_of c) t it cond names vals) as [t' r] eqn:E.
+  destruct r as [old f|old f|e|p|]; cbn; try discriminate.
+  intros _. exists t, old. split; auto. split; eauto.
+Qed.
+
 Lemma update_item_fail c tn k e cond names vals ao :
   res_ok (o_res (snd (update_item lang_match lang_update flavour c tn k e cond names vals ao))) = false ->
   fst (update_item lang_match lang_update flavour c tn k e cond names vals ao) = c.
